@@ -5,6 +5,7 @@ package cookies
 import (
 	"fmt"
 	"net/http"
+	"reflect"
 
 	"github.com/oauth2-proxy/oauth2-proxy/v7/pkg/apis/options"
 )
@@ -12,15 +13,51 @@ import (
 // VerifCSRFSecrets loads the CSRF cookie `cookieName` from req exactly the way the callback
 // handler does (signature check, decryption with the proxy's cookie options) and returns the
 // raw values that otherwise never leave the encrypted cookie: the OAuth state nonce, the OIDC
-// nonce and the PKCE code verifier. Read-only accessor for the C05 check.
+// nonce and the PKCE code verifier. Read-only accessor for the C05 check. The concrete type is
+// inspected by reflection (fields by name, else the first two byte-slice fields in declaration
+// order; the verifier through the interface's own getter), so that renaming it does not break the build.
 func VerifCSRFSecrets(req *http.Request, cookieName string, opts *options.Cookie) (state, nonce []byte, verifier string, err error) {
 	c, err := LoadCSRFCookie(req, cookieName, opts)
 	if err != nil {
 		return nil, nil, "", err
 	}
-	cc, ok := c.(*csrf)
-	if !ok {
-		return nil, nil, "", fmt.Errorf("CSRF implementation is %T, not *csrf", c)
+	rv := reflect.ValueOf(c)
+	for rv.Kind() == reflect.Ptr || rv.Kind() == reflect.Interface {
+		if rv.IsNil() {
+			return nil, nil, "", fmt.Errorf("CSRF implementation is nil")
+		}
+		rv = rv.Elem()
 	}
-	return append([]byte(nil), cc.OAuthState...), append([]byte(nil), cc.OIDCNonce...), cc.GetCodeVerifier(), nil
+	if rv.Kind() != reflect.Struct {
+		return nil, nil, "", fmt.Errorf("CSRF implementation is %T, not a struct", c)
+	}
+	bytesOf := func(f reflect.Value) ([]byte, bool) {
+		if f.IsValid() && f.Kind() == reflect.Slice && f.Type().Elem().Kind() == reflect.Uint8 {
+			out := make([]byte, f.Len())
+			reflect.Copy(reflect.ValueOf(out), f)
+			return out, true
+		}
+		return nil, false
+	}
+	var okS, okN bool
+	state, okS = bytesOf(rv.FieldByName("OAuthState"))
+	nonce, okN = bytesOf(rv.FieldByName("OIDCNonce"))
+	if !okS || !okN {
+		var found [][]byte
+		for i := 0; i < rv.NumField(); i++ {
+			if b, ok := bytesOf(rv.Field(i)); ok {
+				found = append(found, b)
+			}
+		}
+		if len(found) < 2 {
+			return nil, nil, "", fmt.Errorf("CSRF implementation %T has no two byte-slice fields", c)
+		}
+		state, nonce = found[0], found[1]
+	}
+	if g, ok := c.(interface{ GetCodeVerifier() string }); ok {
+		verifier = g.GetCodeVerifier()
+	} else if f := rv.FieldByName("CodeVerifier"); f.IsValid() && f.Kind() == reflect.String {
+		verifier = f.String()
+	}
+	return state, nonce, verifier, nil
 }
